@@ -66,6 +66,9 @@ ASSUMPTIONS = [
     "remove_large_pts >= 1e3 or finite radial range >= 50 (the l>0 far-field condition u=0 is imposed at the last node). With the r=0 "
     "node and the default tol 1e-6 scipy.solve_bvp mostly exceeds max_nodes on l=1 components (library raises ValueError) - "
     "observed, not decided",
+    "decided envelope (molecular): nearest-neighbour distances 1.4..3.0, exponents 0.4..3; angular degree 14 when all atoms have similar Becke radii "
+    "(all H, or C/N/O), degree >= 22 when H is mixed with C/N/O (probe: heteronuclear H-X at degree 14 reaches 4e-3 x sum|c|, "
+    "degree 22 stays below 6e-4)",
     "IVP envelope (only stable one found): LinearFiniteRTransform(1e-3,1e3) of a >=3000-point trapezoid, r_interval=(1e3,1e-3), "
     "exponents 0.05..0.5, DOP853/RK45, evaluation radii 0.3..100; LSODA (error 9e-3) and Becke radial grids are outside",
     "solve_ode_bvp draws its initial guess from numpy's global RNG; the harness seeds it per case",
@@ -233,12 +236,22 @@ def cases(tier, seed):
             lms[0] = [2, int(rng.integers(-2, 3))]  # ... and a quadrupole
         cost = 12.0 if (node and any(l == 1 for l, _ in lms)) else (3.0 if node else 0.7)
         add("bvp-aniso", {"k": k, "rad": spec, "opts": opts, "degree": deg, "lm": lms, "with_s": bool(rng.integers(2))}, cost)
-    # 4. molecules
+    # 3b. (thorough, not required) anisotropic density with the DEFAULT options: documents how often the library fails to converge
+    for k in range(0 if q else 8):
+        l = int(rng.integers(2, 5))
+        add("bvp-aniso-default-options", {"k": k, "rad": {"kind": "gl-becke", "n": 100, "rmin": 1e-5, "R": 1.5}, "opts": {"include_origin": True, "rlp": 1e6}, "degree": 10, "lm": [[l, int(rng.integers(-l, l + 1))]], "with_s": False}, 4.0)
+    # 4. molecules (Becke cells between H and a heavier atom are sharp: those need degree >= 22, see ASSUMPTIONS)
     for k in range(3 if q else 18):
         spec, opts = _mol_config(rng)
         nat = 2 if (q and k < 2) else int(rng.integers(2, 4))
-        deg = 14 if q else _pick(rng, [14, 14, 18, 22, 26])
-        atn = [int(_pick(rng, [1, 1, 6, 7, 8])) for _ in range(nat)]
+        mixed = (k % 3 == 2)
+        if mixed:
+            atn = [1] + [int(_pick(rng, [1, 6, 7, 8])) for _ in range(nat - 2)] + [int(_pick(rng, [6, 7, 8]))]
+            deg = 22 if q else _pick(rng, [22, 26])
+        else:
+            pool = _pick(rng, [[1], [6, 7, 8]])
+            atn = [int(_pick(rng, pool)) for _ in range(nat)]
+            deg = 14 if q else _pick(rng, [14, 14, 18, 22])
         add("bvp-mol", {"k": k, "rad": spec, "opts": opts, "degree": deg, "atnums": atn}, 1.6 * nat * (deg / 14.0) ** 2)
     # 5. IVP (spherical, stable envelope)
     for k in range(4 if q else 24):
@@ -469,6 +482,9 @@ def _run(ctx, family, params):
         cs, al = _coeffs(rng, n), _loguniform(rng, *params["arange"], n)
         if params["opts"]["rlp"] is not None and params["opts"]["rlp"] <= 30.0:
             al = np.maximum(al, 0.2)
+        if n >= 2 and rng.random() < 0.2:  # neutral density: total charge (the l=0 boundary value) is zero
+            cs[-1] = -np.sum(cs[:-1])
+            ctx.count("neutral-density-cases")
         subj = _subject("solve_poisson_bvp", params["rad"], params["opts"])
         rho = ref.gauss_density(ag.points, cs, al, [zero] * n)
         pot = _call(ctx, "bvp-accuracy-centred", subj, lambda: solve_poisson_bvp(ag, rho, tf, **_bvp_kwargs(params["opts"])))
@@ -498,7 +514,7 @@ def _run(ctx, family, params):
         P = _eval_points(rng, [zero])
         _compare(ctx, "bvp-accuracy-offcentre", subj, pot(P), ref.gauss_potential(P, cs, al, ds), TOL_ACC, float(np.sum(np.abs(cs))), note="err/sum|c|", extra={"alphas": al, "disp_sqrt_a": [float(np.linalg.norm(d - zero) * np.sqrt(a)) for d, a in zip(ds, al)]})
 
-    elif family == "bvp-aniso":
+    elif family in ("bvp-aniso", "bvp-aniso-default-options"):
         rg, tf, r0, rmax = make_radial(params["rad"])
         zero = _centre(rng)
         ag = _atomgrid(rg, params["degree"], zero)
